@@ -37,10 +37,48 @@ def scan_sink_results(crate, writer_fns=()):
             if not (is_sink or is_writer):
                 continue
             kinds = {k for k, _ in M.result_flow(B, bb, t)}
+            if b.get("closure") and any(k.endswith("returned") for k in kinds):
+                verdict = _closure_result_consumer(crate, b)
+                kinds = {k for k in kinds if not k.endswith("returned")} | {verdict}
             n = seen.get(decl, 0)
             seen[decl] = n + 1
             out.append((b["path"], _site(B, bb), inst if is_writer else decl, kinds, n, "sink" if is_sink else "writer"))
     return out
+
+
+def _closure_result_consumer(crate, closure_body, depth=0):
+    """A sink Result is *returned from a closure*: what does the function the closure is handed to do with it?
+    -> 'returned' when every error still reaches the enclosing function's caller, else 'closure-result-discarded:<callee>'."""
+    parent = crate.body(closure_body.get("parent") or "")
+    if parent is None or not parent.get("mir") or depth > 3:
+        return "closure-result-discarded:unknown-parent"
+    PB = M.Body(parent)
+    for bb, t in PB.calls():
+        for a in t["args"]:
+            for o in M.trace(PB, a, ()):
+                if o.kind == "aggregate" and o.rv.get("closure") == closure_body["path"]:
+                    decl = M.Body.callee_decl(t) or "?"
+                    short = decl.rsplit("::", 1)[-1]
+                    if short in ("try_for_each", "try_fold", "try_for_each_mut"):
+                        ok = True
+                    elif short == "fold":
+                        # the accumulator (closure parameter 1 after the environment) must be consulted, otherwise an earlier
+                        # error is overwritten by a later Ok
+                        CB = M.Body(closure_body)
+                        acc = 2
+                        uses = [u for u in M.uses_of_local(CB, acc) if u[1] != "drop"]
+                        ok = bool(uses)
+                    else:
+                        ok = False
+                    if not ok:
+                        return f"closure-result-discarded:{short}"
+                    kinds = {k for k, _ in M.result_flow(PB, bb, t)}
+                    if parent.get("closure") and any(k.endswith("returned") for k in kinds):
+                        return _closure_result_consumer(crate, parent, depth + 1)
+                    if kinds and kinds <= GOOD_FLOW:
+                        return "returned"
+                    return "closure-result-discarded:" + short + "->" + ",".join(sorted(kinds))
+    return "closure-result-discarded:closure-not-passed-to-a-call"
 
 
 HASH_TYPES = ("std::collections::HashMap<", "std::collections::HashSet<", "std::collections::hash_map::HashMap<",
